@@ -77,9 +77,9 @@ size_t verif_fwrite(const void * ptr, size_t size, size_t nmemb, FILE * wp) {
                    "writer: size * count of one write stays inside the file bound");
   long len = (long)(size * nmemb);
   __CPROVER_assert(len <= FILE_MAX - g_off, "writer: file stays inside the file bound (harness precondition)");
-  if (nondet_bool()) {                          /* short write */
+  if (nmemb > 0 && nondet_bool()) {             /* short write */
     g_io_failed = 1;
-    size_t k = nondet_ulong(); __CPROVER_assume(k < nmemb || (nmemb == 0 && k == 0));
+    size_t k = nondet_ulong(); __CPROVER_assume(k < nmemb);
     return k;
   }
   g_w_off[g_nwrites] = g_off; g_w_len[g_nwrites] = len; g_w_src[g_nwrites] = ptr;
@@ -222,13 +222,18 @@ void h_file_layout(void) {
 #ifndef ST_N
 #define ST_N 8
 #endif
-#define ST_LEN_MAX (1L << 32)
+#ifndef ST_LEN_MAX
+#define ST_LEN_MAX 4096L          /* PATH_MAX */
+#endif
 dr_string_table_cell CELL[ST_N];
 char STR[ST_N][1];                              /* the strings: only their addresses matter (strlen / strcpy are stubs) */
 long g_len[ST_N];                               /* strlen of string i: any value in [0, ST_LEN_MAX) */
 char * g_dst[ST_N];                             /* where string i was copied */
 int g_copies[ST_N];
-struct { dr_pi_string_table h; long I[ST_N]; } ST_OBJ;   /* the part of the allocation that flatten writes itself: header and index table; the characters are written by strcpy (stub), so no memory is needed behind them */
+/* the allocation of the flattened table: flatten itself writes the header and the index table; the characters are
+   written by strcpy (a stub that only records the destination), so CH is never accessed -- it only gives the pointers
+   into the character area an object to point into (ST_N * ST_LEN_MAX < 2^36 bytes) */
+struct { dr_pi_string_table h; long I[ST_N]; char CH[ST_N * ST_LEN_MAX]; } ST_OBJ;
 #define STBUF ((unsigned char *)&ST_OBJ)
 long g_msz; int g_mallocs;
 
@@ -241,8 +246,8 @@ static int str_index(const char * s) {
 size_t verif_strlen(const char * s) { return (size_t)g_len[str_index(s)]; }
 char * verif_strcpy(char * d, const char * s) {
   int i = str_index(s);
-  __CPROVER_assert(__CPROVER_same_object(d, STBUF) && (unsigned char *)d - STBUF >= 0 &&
-                   (unsigned char *)d - STBUF + g_len[i] + 1 <= g_msz,
+  __CPROVER_assert(__CPROVER_same_object(d, STBUF) && (long)__CPROVER_POINTER_OFFSET(d) >= 0 &&
+                   (long)__CPROVER_POINTER_OFFSET(d) + g_len[i] + 1 <= g_msz,
                    "string table: every string (with its terminator) is copied inside the allocation");
   g_dst[i] = d; g_copies[i]++;
   return d;
